@@ -5,6 +5,7 @@ import (
 	"context"
 	"crypto/sha256"
 	"fmt"
+	"github.com/oasisprotocol/oasis-core/go/common"
 	"math"
 	"math/big"
 	"sort"
@@ -595,6 +596,51 @@ func (m *RegistryMonitor) OnBlock(h *History, b *Block, txs []*GenTx, ref *Block
 	}
 	m.ChurpClaims = max(m.ChurpClaims, len(churpClaims))
 	snap := ParseStake(Dump(ctx, st))
+	// The thresholds recorded with a claim are those its registered object implies now (runtime
+	// descriptors never change their staking thresholds in generated histories).
+	rtByID := map[common.Namespace]*registry.Runtime{}
+	for _, rt := range rts {
+		rtByID[rt.ID] = rt
+	}
+	sameThresholds := func(a staking.Address, c staking.StakeClaim, want []staking.StakeThreshold, what string) {
+		acct := snap.Accounts[a]
+		if acct == nil {
+			return
+		}
+		have, ok := acct.Escrow.StakeAccumulator.Claims[c]
+		if !ok {
+			return // reported as a missing claim below
+		}
+		if !bytes.Equal(cbor.Marshal(have), cbor.Marshal(want)) {
+			viol("stake-claim-with-other-thresholds", fmt.Sprintf("account %s records claim %q with thresholds %v, the registered %s implies %v", a, c, have, what, want), nil)
+		}
+	}
+	for _, e := range ents {
+		sameThresholds(staking.NewAddress(e.ID), registry.StakeClaimRegisterEntity, staking.GlobalStakeThresholds(staking.KindEntity), "entity")
+	}
+	for _, n := range nodes {
+		var nrts []*registry.Runtime
+		known := true
+		for _, nr := range n.Runtimes {
+			if rt := rtByID[nr.ID]; rt != nil {
+				nrts = append(nrts, rt)
+			} else {
+				known = false
+			}
+		}
+		if !known {
+			continue
+		}
+		sameThresholds(staking.NewAddress(n.EntityID), registry.StakeClaimForNode(n.ID), registry.StakeThresholdsForNode(n, nrts), "node descriptor")
+	}
+	for _, rt := range rts {
+		if rt.GovernanceModel == registry.GovernanceConsensus {
+			continue
+		}
+		if a, ok := rt.StakingAddress(); ok && a != nil {
+			sameThresholds(*a, registry.StakeClaimForRuntime(rt.ID), registry.StakeThresholdsForRuntime(rt), "runtime descriptor")
+		}
+	}
 	for _, a := range snap.SortedAccounts() {
 		// A CHURP claim is recorded with the global CHURP threshold.
 		for c, ths := range snap.Accounts[a].Escrow.StakeAccumulator.Claims {
